@@ -146,7 +146,7 @@ def backend_runs(r, quick):
 
 
 def run():
-    chk = Check("C19", props_modules=["GFO.Props.C19", "GFO.Props.LocalRuns", "GFO.Props.PopRuns", "GFO.Props.EvoRuns", "GFO.Props.PatternRuns", "GFO.Props.PowellRuns", "GFO.Props.SimplexRuns", "GFO.Props.DirectRuns", "GFO.Gen.TrackerGenCheck"], gen_steps=(translators.gen_tracker,))
+    chk = Check("C19", props_modules=["GFO.Props.C19", "GFO.Props.LocalRuns", "GFO.Props.PopRuns", "GFO.Props.EvoRuns", "GFO.Props.PatternRuns", "GFO.Props.PowellRuns", "GFO.Props.SimplexRuns", "GFO.Props.DirectRuns", "GFO.Props.SmboPosRuns", "GFO.Gen.TrackerGenCheck"], gen_steps=(translators.gen_tracker,))
     chk.build_and_audit()
     r = C.rng("C19")
     quick = C.tier() != "thorough"
@@ -166,5 +166,6 @@ def run():
     localgen.add_powell_to(chk, C.rng("C19-powell"), C.T(20, 200), constraint_p=0.6, nonfinite_p=0.2)
     localgen.add_simplex_to(chk, C.rng("C19-simplex"), C.T(20, 200), constraint_p=0.5, nonfinite_p=0.2)
     localgen.add_direct_to(chk, C.rng("C19-direct"), C.T(20, 200), constraint_p=0.5, nonfinite_p=0.2)
+    localgen.add_smbo_to(chk, C.rng("C19-smbo"), C.T(4, 30), constraint_p=0.5, nonfinite_p=0.2)
     scen.shutdown_manager()
     return chk.finish()
